@@ -11,6 +11,8 @@ from aas_core_codegen.common import Identifier, Stripped
 
 from vf.common import Violation, assume, fail, symbolic
 
+from vf.models import XSD_ROOT_ELEMENT
+
 PROPERTY = "C21"
 LEVEL = "model_checking"
 
@@ -82,7 +84,7 @@ def model_text(template: str, a: str, b: str) -> str:
 _SNIPPETS = {"jsonschema": {specific_implementations.ImplementationKey("schema_base.json"):
                             Stripped('{"$schema": "https://json-schema.org/draft/2019-09/schema", "title": "T", "type": "object"}')},
              "xsd": {specific_implementations.ImplementationKey("root_element.xml"):
-                     Stripped('<xs:element name="root" type="Something_t" xmlns:xs="http://www.w3.org/2001/XMLSchema"/>')}}
+                     Stripped(XSD_ROOT_ELEMENT)}}
 
 
 def target_reports_an_error(target: str, symbol_table: Any) -> Tuple[bool, str]:
